@@ -258,7 +258,7 @@ Proof. vm_compute. repeat split; intro E; discriminate E. Qed.
 
 (* the classifier on a hand-written template:  fn f(src: &str) -> derive_more::core::result::Result<Self, E> { Ok(src) } *)
 Definition tpl_example : template :=
-  {| t_file := "x.rs"; t_fn := "f"; t_index := 0; t_line := 1;
+  {| t_file := "x.rs"; t_fn := "f"; t_index := 0; t_line := 1; t_var := "";
      t_tokens := [TId "fn"; TId "f"; TGroup Paren [TId "src"; TPunct ":"; TPunct "&"; TId "str"]; TPunct "->";
                   TId "derive_more"; TPunct "::"; TId "core"; TPunct "::"; TId "result"; TPunct "::"; TId "Result";
                   TPunct "<"; TId "Self"; TPunct ","; TInterp "e"; TPunct ">";
@@ -514,4 +514,114 @@ Proof.
   - apply String.eqb_eq. exact Hn.
   - destruct (ms_recv s); try discriminate Hr. reflexivity.
   - apply negb_true_iff. exact Hc.
+Qed.
+
+(* ================================================================== wave 6: type-relative associated paths *)
+Lemma assoc_offenders_known_b :
+  forallb (fun o => mem (assoc_key o) known_assoc_sites) (assoc_offenders templates) = true.
+Proof. vm_compute. reflexivity. Qed.
+
+Lemma assoc_path_closed_or_offender :
+  forall ts t p, In t ts -> In p (assoc_paths t) ->
+    assoc_path_closed ts (generic_params t) p = true \/
+    In (t_file t, (hd "" p ++ "::" ++ last_seg p)%string) (assoc_offenders ts).
+Proof.
+  intros ts t p Ht Hp.
+  destruct (assoc_path_closed ts (generic_params t) p) eqn:Hc; [left; reflexivity | right].
+  unfold assoc_offenders. apply in_flat_map. exists t. split; [exact Ht |].
+  unfold assoc_offenders_of. apply in_map_iff. exists p. split; [reflexivity |].
+  apply filter_In. split; [exact Hp |]. rewrite Hc. reflexivity.
+Qed.
+
+Lemma assoc_paths_classified :
+  forall t p, In t templates -> In p (assoc_paths t) ->
+    assoc_path_closed templates (generic_params t) p = true \/
+    In (assoc_key (t_file t, (hd "" p ++ "::" ++ last_seg p)%string)) known_assoc_sites.
+Proof.
+  intros t p Ht Hp.
+  destruct (assoc_path_closed_or_offender templates t p Ht Hp) as [Hc | Ho]; [left; exact Hc | right].
+  pose proof assoc_offenders_known_b as Hb. rewrite forallb_forall in Hb.
+  apply mem_In. exact (Hb _ Ho).
+Qed.
+
+(* no exception is listed, so every associated path of every template is closed *)
+Lemma assoc_paths_all_closed :
+  forall t p, In t templates -> In p (assoc_paths t) -> assoc_path_closed templates (generic_params t) p = true.
+Proof.
+  intros t p Ht Hp. destruct (assoc_paths_classified t p Ht Hp) as [Hc | Hk]; [exact Hc | destruct Hk].
+Qed.
+
+(* a path whose qualifier is `<Ty>` without `as` is never closed; a trait-qualified one always is *)
+Lemma unqualified_type_relative_never_closed :
+  forall ts gp rest, assoc_path_closed ts gp ("<>" :: rest) = false.
+Proof. reflexivity. Qed.
+
+Lemma trait_qualified_always_closed :
+  forall ts gp rest, assoc_path_closed ts gp ("<as>" :: rest) = true.
+Proof. reflexivity. Qed.
+
+Lemma qualified_assoc_scope_independent :
+  forall tr inh1 inh2 provides1 provides2 sc1 sc2,
+    resolve_assoc (Some tr) inh1 provides1 sc1 = resolve_assoc (Some tr) inh2 provides2 sc2.
+Proof. reflexivity. Qed.
+
+Lemma type_relative_assoc_observes_scope :
+  forall c d : N, c <> d ->
+    let provides := fun _ : N => true in
+    (* `<Ty>::from(x)` inside `impl From<..>`: the impl's trait is a candidate; a second trait of the caller's scope with an
+       item of that name makes it ambiguous; an inherent `from` of the user's type wins *)
+    resolve_assoc None None provides {| mc_macro := [c]; mc_user := []; mc_prelude := [] |} = MTrait c /\
+    resolve_assoc None None provides {| mc_macro := [c]; mc_user := [d]; mc_prelude := [] |} = MAmbiguous /\
+    (forall i sc, resolve_assoc None (Some i) provides sc = MInherent i) /\
+    (forall inh sc, resolve_assoc (Some c) inh provides sc = MTrait c).
+Proof. intros c d Hcd provides. repeat split. Qed.
+
+(* ================================================================== binders in pattern position *)
+Lemma binders_ok_b : forallb (fun t => forallb binder_ok (pattern_binders t)) templates = true.
+Proof. vm_compute. reflexivity. Qed.
+
+Lemma binders_classified :
+  forall t x, In t templates -> In x (pattern_binders t) ->
+    starts_dunder x = true \/ binder_listed x = true.
+Proof.
+  intros t x Ht Hx. pose proof binders_ok_b as Hb. rewrite forallb_forall in Hb. specialize (Hb t Ht).
+  rewrite forallb_forall in Hb. specialize (Hb x Hx). unfold binder_ok, binder_closed in Hb.
+  apply orb_true_iff in Hb. exact Hb.
+Qed.
+
+(* "every binder is `__`-prefixed" is false: the listed class is inhabited (fn try_from(val: #repr_ty), try_from.rs) *)
+Lemma binder_val_b :
+  existsb (fun t => String.eqb (t_file t) "try_from.rs" && mem "val" (pattern_binders t)) templates = true.
+Proof. vm_compute. reflexivity. Qed.
+
+Lemma binders_all_dunder_refuted :
+  exists t x, In t templates /\ In x (pattern_binders t) /\ t_file t = "try_from.rs" /\ x = "val" /\
+              starts_dunder x = false /\
+              (* a unit item called `val` in the caller's scope turns the parameter into a path pattern *)
+              (forall n, resolve_pattern_ident (fun y => if String.eqb y "val" then Some n else None) x = PPathTo n) /\
+              resolve_pattern_ident (fun _ => None) x = PBinding x.
+Proof.
+  pose proof binder_val_b as Hb. apply existsb_exists in Hb. destruct Hb as [t [Ht Hb]].
+  apply andb_true_iff in Hb. destruct Hb as [Hf Hm].
+  exists t, "val". repeat split.
+  - exact Ht.
+  - apply mem_In. exact Hm.
+  - apply String.eqb_eq. exact Hf.
+Qed.
+
+(* resolution model: a unit item of the binder's name changes the pattern's meaning; without one it is a binding *)
+Lemma unit_item_captures_binder :
+  forall (items : string -> option N) x n, items x = Some n ->
+    resolve_pattern_ident items x = PPathTo n /\ resolve_pattern_ident (fun _ => None) x = PBinding x.
+Proof. intros items x n H. unfold resolve_pattern_ident. rewrite H. split; reflexivity. Qed.
+
+(* a `__` binder keeps its meaning in every scope whose unit items are not `__`-prefixed *)
+Lemma dunder_binder_scope_independent :
+  forall (items1 items2 : string -> option N) x,
+    starts_dunder x = true ->
+    (forall y, starts_dunder y = true -> items1 y = None) ->
+    (forall y, starts_dunder y = true -> items2 y = None) ->
+    resolve_pattern_ident items1 x = resolve_pattern_ident items2 x.
+Proof.
+  intros i1 i2 x Hx H1 H2. unfold resolve_pattern_ident. rewrite (H1 x Hx), (H2 x Hx). reflexivity.
 Qed.
